@@ -275,7 +275,14 @@ func runScenario(sc Scen) *Result {
 	res.WaitedMs = int(time.Since(start) / time.Millisecond)
 	if !res.Quiescent {
 		buf := make([]byte, 4<<20)
-		buf = buf[:runtime.Stack(buf, true)]
+		for {
+			n := runtime.Stack(buf, true)
+			if n < len(buf) || len(buf) >= 512<<20 {
+				buf = buf[:n]
+				break
+			}
+			buf = make([]byte, 2*len(buf))
+		}
 		for _, g := range strings.Split(string(buf), "\n\n") {
 			if !strings.Contains(g, "[chan send") && !strings.Contains(g, "[select") {
 				continue
@@ -369,6 +376,13 @@ func Run(args map[string]string) {
 		}
 	}
 	results := make([]*Result, len(scens))
+	// the small-buffers class runs first and alone: its goroutine dump must show only its own
+	// worker (every scenario leaks its worker's goroutines; there is no Close on AsyncWorker)
+	for i := range scens {
+		if scens[i].Class == "finding" {
+			results[i] = runScenario(scens[i])
+		}
+	}
 	sem := make(chan struct{}, par)
 	var wg sync.WaitGroup
 	for i := range scens {
@@ -385,11 +399,5 @@ func Run(args map[string]string) {
 		}()
 	}
 	wg.Wait()
-	// the small-buffers class runs alone: its goroutine dump must show only its own worker
-	for i := range scens {
-		if scens[i].Class == "finding" {
-			results[i] = runScenario(scens[i])
-		}
-	}
 	hutil.WriteJSON(args["out"], map[string]interface{}{"results": results})
 }
